@@ -106,7 +106,9 @@ theorem delay_for_until_agree (m : Msg) (now x : Int) :
             f = x ∧ u * 1000000000 ≤ now + f ∧ now + f < u * 1000000000 + 1000000000) ∧
     (∀ u f, mget (stamp m (Delay.until now x)).md untilKey = .time u →
             mget (stamp m (Delay.until now x)).md forKey = .dur f →
-            u = secOf x ∧ u * 1000000000 ≤ now + f ∧ now + f < u * 1000000000 + 1000000000) := by
+            u = secOf x ∧ f = satDur (x - now) ∧
+            (minDur ≤ x - now → x - now ≤ maxDur →
+              u * 1000000000 ≤ now + f ∧ now + f < u * 1000000000 + 1000000000)) := by
   constructor
   · intro u f hu hf
     rw [stamp_until] at hu; rw [stamp_for] at hf
@@ -117,21 +119,44 @@ theorem delay_for_until_agree (m : Msg) (now x : Int) :
     rw [stamp_until] at hu; rw [stamp_for] at hf
     simp only [Delay.until, renderTime, if_true, Val.time.injEq, Val.dur.injEq] at hu hf
     subst hf
-    refine ⟨hu.symm, ?_, ?_⟩ <;> unfold secOf at hu <;> omega
+    refine ⟨hu.symm, rfl, ?_⟩
+    intro h1 h2
+    unfold secOf at hu
+    unfold satDur maxDur minDur at *
+    split <;> (try split) <;> constructor <;> omega
+
+/-- **far future, far past, zero time**: where the distance does not fit a `time.Duration` the stamped delayed-for is
+    the saturated distance – the largest duration for a delayed-until beyond +292 years, the smallest for one before
+    -292 years – so it always has the SIGN of `until - now`, is exact whenever it can be, and never exceeds the distance -/
+theorem delay_until_saturates (now t : Int) :
+    (t - now > 0 → satDur (t - now) > 0) ∧ (t - now < 0 → satDur (t - now) < 0) ∧ (t = now → satDur (t - now) = 0) ∧
+    (minDur ≤ t - now → t - now ≤ maxDur → satDur (t - now) = t - now) ∧
+    (t - now > maxDur → satDur (t - now) = maxDur) ∧ (t - now < minDur → satDur (t - now) = minDur) := by
+  unfold satDur maxDur minDur
+  refine ⟨?_, ?_, ?_, ?_, ?_, ?_⟩ <;> intros <;> (try subst_vars) <;> split <;> (try split) <;> omega
+
+/-- the seeded int64 subtraction: a delayed-until in the year 2400 (seen from 2026) gets a NEGATIVE delayed-for,
+    where `Time.Sub` gives the largest duration -/
+theorem wrapped_duration_witness :
+    satDur (13569465600000000000 - 1790000000000000000) = maxDur ∧
+    wrap64 (wrap64 13569465600000000000 - 1790000000000000000) < 0 := by
+  decide
 
 /-- **the agreement does not depend on the location the `time.Time` of `delay.Until(t)` carries**: whatever the zone,
     the stamped delayed-until denotes the instant `t` itself – the second in which `now + for` lies – only its
     rendering (suffix `Z` or `+hh:mm`) follows the zone -/
 theorem delay_until_zone_agree (m : Msg) (now t zone : Int) :
     ∃ u, (mget (stamp m (Delay.untilIn now t zone)).md untilKey).instantSec = some u ∧ u = secOf t ∧
-      mget (stamp m (Delay.untilIn now t zone)).md forKey = .dur (t - now) ∧
-      u * 1000000000 ≤ now + (t - now) ∧ now + (t - now) < u * 1000000000 + 1000000000 ∧
+      mget (stamp m (Delay.untilIn now t zone)).md forKey = .dur (satDur (t - now)) ∧
+      (minDur ≤ t - now → t - now ≤ maxDur →
+        u * 1000000000 ≤ now + satDur (t - now) ∧ now + satDur (t - now) < u * 1000000000 + 1000000000) ∧
       (zone ≠ 0 → mget (stamp m (Delay.untilIn now t zone)).md untilKey = .timeIn u zone) := by
-  refine ⟨secOf t, ?_, rfl, ?_, ?_, ?_, ?_⟩
+  refine ⟨secOf t, ?_, rfl, ?_, ?_, ?_⟩
   · rw [stamp_until]; by_cases hz : zone = 0 <;> simp [Delay.untilIn, renderTime, hz, Val.instantSec]
   · rw [stamp_for]; rfl
-  · unfold secOf; omega
-  · unfold secOf; omega
+  · intro h1 h2
+    rw [(delay_until_saturates now t).2.2.2.1 h1 h2]
+    unfold secOf; constructor <;> omega
   · intro hz; rw [stamp_until]; simp [Delay.untilIn, renderTime, hz]
 
 /-- the seeded layout with a literal `Z`: for a time two hours east of UTC the stamped delayed-until is two hours off -/
